@@ -148,7 +148,7 @@ func runC03(r *chk.Run) {
 	}
 	cfgA := ref.Cfg{Checksum: ref.ChecksumCRC32, RowsV2: true, TableID6: true, GTID: true, ServerID: 5, ServerVer: "5.7.30-log"}
 	cfgB := ref.Cfg{Checksum: ref.ChecksumOff, RowsV2: false, TableID6: false, ServerID: 5, ServerVer: "5.5.62"}
-	alpha := []string{UTxXID, UDDL, URotate, UTxCommit, UAutoRows, URotateStop, UTxRollback, UTx2}
+	alpha := []string{UTxXID, UDDL, URotate, UTxCommit, UUnknownSt, UAutoRows, URotateStop, UTxRollback, UGTID, UTx2}
 	long := make([]byte, 255)
 	for i := range long {
 		long[i] = 'a' + byte(i%26)
